@@ -180,6 +180,11 @@ void applySchedule(Scenario& sc, int sub, bool plainFlavour) {
         p.workerMode = WK_UNIFORM;
         p.scribble = plainFlavour;
     }
+    // the shipped floating-point kernels are built with function-boundary scheduling points: preemption inside one kernel operator
+    if (sc.isNumeric() && sc.isTaskBased() && sub != 0 && sub != 1 && r.chance(0.5)) {
+        static const double pd[] = {0.002, 0.02, 0.1};
+        p.pDeep = pd[r.below(3)];
+    }
     sc.policy = p;
 }
 
